@@ -75,6 +75,7 @@ class Harness:
                 tn[j] = 'extra%d' % j
         ms = SymMgr(N, 0, Ls, names=names_s, with_cache=False, with_refs=False, tag='s')
         mt = SymMgr(NT, 0, Lt, names=tn, with_cache=False, with_refs=False, tag='t')
+        ms.decl = 'choose'
         ms.assume_pre()
         mt.assume_pre()
         assume_canon_real(mt)
